@@ -119,6 +119,9 @@ func runC03(rc *fw.RunCtx) {
 	s := sim.New(sched, strat, 25000)
 	h := &Host{}
 	sos := simos.New()
+	if f.Chance(1, 2) {
+		sos.YieldFn = s.Yield // slow disk: OS calls are scheduling points
+	}
 	sfs := NewSimFS()
 
 	// ---- program
@@ -229,9 +232,14 @@ func runC03(rc *fw.RunCtx) {
 		rc.Hit("fault_deadline_armed")
 		s.AtStep(f.Intn(400), "advance-clock", func() { s.Advance(2500 * time.Millisecond) })
 	}
-	if f.Chance(1, 2) {
+	switch f.Intn(4) {
+	case 0, 1:
 		at := f.Intn(800)
 		s.AtStep(at, "cancel", func() { rc.Hit("fault_cancel"); cancel1() })
+	case 2:
+		// aimed at a site: the cancel lands while some task sits inside a
+		// primitive or a slow OS call
+		armSiteFault(s, f, "cancel", func() { rc.Hit("fault_cancel_at_site"); cancel1() })
 	}
 
 	// ---- API calls, each guarded
@@ -318,7 +326,7 @@ func runC03(rc *fw.RunCtx) {
 			}
 		})
 	})
-	s.Until = func() bool { return finished && len(aliveExcept(s, "vm.watcher")) == 0 }
+	s.Until = func() bool { return finished && len(aliveExcept(s, "vm.watcher", "file.watcher")) == 0 }
 	verdict := s.Run()
 	s.Shutdown(func() { cancel1() }, func() { cancel2() }, func() {
 		if staleCancel != nil {
